@@ -22,6 +22,11 @@ type BoolSchema struct {
 }
 
 func (b BoolSchema) Unserialize(data any) (any, error) {
+	result, err := b.unserialize(data)
+	return result, conversionError(err)
+}
+
+func (b BoolSchema) unserialize(data any) (any, error) {
 	intConverter := func(data int64) (bool, error) {
 		switch data {
 		case 1:
